@@ -548,7 +548,8 @@ class DEVSSimulator(Simulator[TIME], Generic[TIME]):
         
     def schedule_event(self, event: SimEventInterface) -> SimEventInterface:
         """schedule the provided event on the event list"""
-        if event.time < self._simulator_time:
+        # 'not >=' instead of '<' also refuses a NaN time
+        if not (event.time >= self._simulator_time):
             raise DSOLError("cannot schedule event in the past")
         self._eventlist.add(event)
         return event
@@ -567,7 +568,7 @@ class DEVSSimulator(Simulator[TIME], Generic[TIME]):
         time is thus simulator.simulator_time + delay."""
         # compare with a zero of the simulator's time type: a Duration
         # delay cannot be compared with the int 0
-        if delay < self._simulator_time - self._simulator_time:
+        if not (delay >= self._simulator_time - self._simulator_time):
             raise DSOLError("cannot schedule event in the past")
         return self.schedule_event(SimEvent(self._simulator_time + delay,
                  target, method, priority, **kwargs))
@@ -577,7 +578,7 @@ class DEVSSimulator(Simulator[TIME], Generic[TIME]):
                  **kwargs) -> SimEventInterface:
         """schedule a methodCall at a relative duration. The execution 
         time is thus simulator.simulator_time + delay."""
-        if time < self._simulator_time:
+        if not (time >= self._simulator_time):
             raise DSOLError("cannot schedule event in the past")
         return self.schedule_event(SimEvent(time,
                  target, method, priority, **kwargs))
